@@ -568,6 +568,18 @@ func freshSlice(v ssa.Value, depth int) (bool, string) {
 			// append(fresh, …) stays fresh only if the first operand is fresh/nil
 			return freshSlice(x.Call.Args[0], depth+1)
 		}
+		// a module helper that builds the copy (`copyPath(path)`): every value it returns is fresh
+		if sc := x.Call.StaticCallee(); sc != nil && inModule(sc) && len(sc.Blocks) > 0 && sc.Signature.Results().Len() == 1 {
+			rets := returnsOf(sc)
+			for _, ret := range rets {
+				if ok, why := freshSlice(retVals(ret)[0], depth+1); !ok {
+					return false, "result of " + calleeDesc(&x.Call) + ", which returns a " + why
+				}
+			}
+			if len(rets) > 0 {
+				return true, ""
+			}
+		}
 		return false, "result of " + calleeDesc(&x.Call)
 	case *ssa.Parameter:
 		return false, "parameter " + x.Name()
